@@ -353,4 +353,57 @@ theorem printCommaSep_strip (text : Str) (h : text.count '.' ≤ 1) (hc : ∀ c 
     congr 1
     exact List.filter_eq_self.mpr (fun c hx => by simpa using hcq c hx)
 
+/-! ## `%0w.df` of the exact layer has at most one point -/
+
+theorem digitChar_ne_point : ∀ r : Fin 10, Char.ofNat (r.val + 48) ≠ '.' := by decide
+
+theorem itoaAux_no_point : ∀ n : Nat, '.' ∉ itoaAux n := by
+  intro n
+  induction n using Nat.strongRecOn with
+  | _ n ih =>
+    cases n with
+    | zero => simp [itoaAux]
+    | succ m =>
+      unfold itoaAux
+      intro h
+      rcases List.mem_append.mp h with h1 | h1
+      · exact ih ((m + 1) / 10) (by omega) h1
+      · have := digitChar_ne_point ⟨(m + 1) % 10, by omega⟩
+        simp only [List.mem_singleton] at h1
+        exact this h1.symm
+
+theorem itoa_no_point (n : Nat) : '.' ∉ itoa n := by
+  unfold itoa
+  split
+  · decide
+  · exact itoaAux_no_point n
+
+theorem zeros_no_point (n : Nat) : '.' ∉ zeros n := by
+  unfold zeros
+  intro h
+  exact absurd (List.eq_of_mem_replicate h) (by decide)
+
+theorem renderFixed_one_point (k d : Nat) : (Exact.renderFixed k d).count '.' ≤ 1 := by
+  unfold Exact.renderFixed
+  simp only
+  split
+  · rw [List.count_eq_zero.mpr (itoa_no_point _)]; omega
+  · rw [List.count_append, List.count_cons_self, List.count_append,
+      List.count_eq_zero.mpr (itoa_no_point _), List.count_eq_zero.mpr (zeros_no_point _),
+      List.count_eq_zero.mpr (itoaAux_no_point _)]
+    omega
+
+theorem padLeft_count_point (w : Nat) (s : Str) : (padLeft w s).count '.' = s.count '.' := by
+  unfold padLeft
+  split
+  · rename_i c cs
+    rw [List.count_append]
+    have : '.' ∉ List.replicate (w - (c :: cs).length) (if isDigitC c then '0' else ' ') := by
+      intro h
+      have := List.eq_of_mem_replicate h
+      split at this <;> exact absurd this (by decide)
+    rw [List.count_eq_zero.mpr this, Nat.zero_add]
+  · have : '.' ∉ List.replicate w ' ' := fun h => absurd (List.eq_of_mem_replicate h) (by decide)
+    rw [List.count_eq_zero.mpr this]; rfl
+
 end XlModel.NumFmt
